@@ -68,6 +68,9 @@ type kase struct {
 	fresh  bool   // a stale-handler case in which the pool handed out another object (the stale call was not made)
 	corpus bool   // fixed corpus case: kept exactly as written
 	retry  *retryPol // != nil: the forwarding route carries this retry policy and proxy_disable_retry is NOT set
+	// kind rg (c14_regs.go): the filter OBJECT of each receiver / sender registration (-1 = a plain scripted filter of its own);
+	// registrations with the same id >= 0 hand the same object to the chain
+	robj, sobj []int
 }
 
 // retryPol is a route retry policy (v2.RetryPolicy: retry_on, num_retries, status codes).
@@ -127,7 +130,11 @@ func (k *kase) tok() string {
 		}
 		extra += fmt.Sprintf(" retry=%s:%d:%s", b(k.retry.on), k.retry.n, codes)
 	}
-	return fmt.Sprintf("ch %s %s route=%s host=%s pool=%s oneway=%s body=%s trl=%s up=%s%s", j(rs), j(ss),
+	kind := "ch"
+	if k.robj != nil || k.sobj != nil {
+		kind = "rg " + objTok(k.robj) + " " + objTok(k.sobj)
+	}
+	return fmt.Sprintf(kind+" %s %s route=%s host=%s pool=%s oneway=%s body=%s trl=%s up=%s%s", j(rs), j(ss),
 		strings.Join(k.routes, ","), b(k.host), k.pool, b(k.oneway), b(k.body), b(k.trl), k.up, extra)
 }
 
@@ -231,15 +238,18 @@ func runCase(k *kase) string {
 		return pf
 	}
 	builtins := map[int]px.Builtin{}
+	var objOfGlobal []int // kind rg: object id per global registration
 	ri, si := 0, 0
 	for ri < len(k.recv) || si < len(k.send) {
 		takeSend := ri >= len(k.recv) || (k.mix && si < len(k.send) && (ri+si)%2 == 1)
 		if takeSend {
 			local[len(filters)] = si
+			objOfGlobal = append(objOfGlobal, objAt(k.sobj, si))
 			filters = append(filters, mkSend(k.send[si]))
 			si++
 		} else {
 			local[len(filters)] = ri
+			objOfGlobal = append(objOfGlobal, objAt(k.robj, ri))
 			if b := k.recv[ri].builtin; b != "" {
 				builtins[len(filters)] = builtinOf(b, k.recv[ri])
 			}
@@ -262,6 +272,11 @@ func runCase(k *kase) string {
 	if len(builtins) > 0 {
 		if err := fixture.SetBuiltins(builtins); err != nil {
 			panic(fmt.Sprintf("c14: builtin filters: %v", err))
+		}
+	}
+	if k.robj != nil || k.sobj != nil {
+		if err := fixture.SetShared(objOfGlobal); err != nil {
+			panic(fmt.Sprintf("c14: shared filters: %v", err))
 		}
 	}
 	switch k.pool {
@@ -307,6 +322,7 @@ func runCase(k *kase) string {
 	}
 	ex := fixture.Request(px.H(":path", pathOf(k.routes[0]), ":authority", "svc", ":scheme", "http", "x-ip", xip), body, trailers)
 	defer ex.ForgetProv()
+	defer ex.ForgetShared()
 
 	tm := "-" // return value of the asynchronous TerminateStream call of the case, when one is made
 	tb := func(x bool) string {
@@ -375,6 +391,7 @@ func runCase(k *kase) string {
 	}
 
 	var out []string
+	destroyed := map[int]int{} // kind rg: OnDestroy calls per shared object
 	own := [3]string{"-", "-", "-"} // answer tokens of the headers / data / trailers written downstream
 	toks := ex.DownToks()
 	nd := 0
@@ -412,6 +429,12 @@ func runCase(k *kase) string {
 			own[2] = nextTok()
 		case "dr":
 			out = append(out, "dr")
+		case "fu", "fsu": // kind rg: an object invoked in a phase / as a sender registration it did not make
+			out = append(out, t)
+		case "fxo":
+			var o int
+			fmt.Sscan(p[1], &o)
+			destroyed[o]++
 		}
 	}
 	if ex.Done() {
@@ -420,6 +443,9 @@ func runCase(k *kase) string {
 		out = append(out, "done=0")
 	}
 	out = append(out, "own="+own[0]+"/"+own[1]+"/"+own[2], "tm="+tm)
+	if k.robj != nil || k.sobj != nil {
+		out = append(out, "od="+destroyTok(destroyed))
+	}
 	return strings.Join(out, " ")
 }
 
@@ -787,6 +813,9 @@ func Run(c *hx.Ctx) {
 		add(k)
 	}
 
+	// one filter OBJECT registered for several phases / as a sender filter as well: kind rg (c14_regs.go)
+	addRegCases(c, rng, parts, part, add)
+
 	// run: 8 workers (4 in the thorough tier, where several harness processes run side by side); results in case order
 	workers := 8
 	if c.Thorough() {
@@ -816,6 +845,7 @@ func Run(c *hx.Ctx) {
 	wg.Wait()
 	for i, k := range cases {
 		c.Emit("C14", k.tok(), res[i])
+		countRegs(c, k)
 		c.Count(fmt.Sprintf("recv.len=%d", len(k.recv)))
 		c.Count(fmt.Sprintf("send.len=%d", len(k.send)))
 		c.Count("route=" + strings.Join(k.routes, ","))
